@@ -317,6 +317,40 @@ fn check_alternation(trace: &[Ev], first: &Ev, second: &Ev, trapped: bool, what:
     None
 }
 
+/// The probe must fire exactly where the original run produced the virtual control-flow event
+/// `(kind, li, pc)`: same count, and the same position among the original (non-probe) events. This
+/// needs no anchor instruction next to the construct, so it also judges constructs whose `end`s and
+/// `else`s are adjacent to other structural instructions.
+fn virt_rule(o: &RunOut, t: &RunOut, kind: u8, li: usize, pc: u32, p: &Ev, what: &str) -> Option<String> {
+    let exp: Vec<usize> = o.virt.iter().filter(|v| v.1 == kind && v.2 as usize == li && v.3 == pc).map(|v| v.0).collect();
+    let mut got = vec![];
+    let mut n = 0usize;
+    for e in &t.trace {
+        if e == p {
+            got.push(n);
+        } else if !is_probe(e) {
+            n += 1;
+        }
+    }
+    if exp == got {
+        return None;
+    }
+    let k = exp.iter().zip(got.iter()).position(|(a, b)| a != b).unwrap_or(exp.len().min(got.len()));
+    Some(format!(
+        "{what}: probe fired {} times, the original run {} the construct {} times; first difference at occurrence {k}: probe after original event #{:?}, expected after #{:?} (event there: {:?})",
+        got.len(),
+        match kind {
+            crate::interp::V_ENTER => "entered",
+            crate::interp::V_FALL => "fell through",
+            _ => "reached the instruction after",
+        },
+        exp.len(),
+        got.get(k),
+        exp.get(k),
+        exp.get(k).and_then(|i| i.checked_sub(1)).and_then(|i| o.trace.get(i)),
+    ))
+}
+
 /// Activations of the trace: (function magic, index of Enter, index of Leave (or len), how)
 fn activations(trace: &[Ev]) -> Vec<(i64, usize, usize, Option<LeaveHow>)> {
     let mut out = vec![];
@@ -442,7 +476,7 @@ pub fn judge_exec(id: &str, sc: &Scenario, stats: &mut ExecStats) -> (Judged, Ru
             .zip(args.iter())
             .map(|(t, v)| if *t == crate::ins::VT::I32 { Val::I32(*v as i32) } else { Val::I64(*v) })
             .collect();
-        let o = run_export(&orig_mod, name, vals.clone(), plan.tape.clone(), plan.trap_at, 200_000);
+        let o = crate::interp::run_export_virt(&orig_mod, name, vals.clone(), plan.tape.clone(), plan.trap_at, 200_000, true);
         let t = run_export(&inst_mod, name, vals, plan.tape.clone(), plan.trap_at, 400_000);
         let (o, t) = match (o, t) {
             (Ok(o), Ok(t)) => (o, t),
@@ -542,9 +576,11 @@ pub fn judge_exec(id: &str, sc: &Scenario, stats: &mut ExecStats) -> (Judged, Ru
                         .iter()
                         .find(|c| c.opener == *instr)
                         .map(|c| (c.m_entry, format!("{:?}", c.kind)))
-                        .or_else(|| finfo.constructs.iter().find(|c| c.else_idx == Some(*instr)).and_then(|c| c.m_else_entry.map(|m| (m, "Else".to_string()))));
+                        .or_else(|| finfo.constructs.iter().find(|c| c.else_idx == Some(*instr)).map(|c| (c.m_else_entry.unwrap_or(0), "Else".to_string())));
                     if let Some((m, k)) = anchor {
-                        if let Some(e) = check_alternation(&t.trace, &p, &Ev::Mark(m), trapped, "block_entry") {
+                        let e1 = if m != 0 { check_alternation(&t.trace, &p, &Ev::Mark(m), trapped, "block_entry") } else { None };
+                        let e = e1.or_else(|| virt_rule(&o, &t, crate::interp::V_ENTER, fi, *instr, &p, "block_entry"));
+                        if let Some(e) = e {
                             push("C18", Mismatch::new("probe_timing", &format!("block_entry:{k}"), e), &mut owned, &mut others);
                         }
                     }
@@ -555,9 +591,14 @@ pub fn judge_exec(id: &str, sc: &Scenario, stats: &mut ExecStats) -> (Judged, Ru
                         .iter()
                         .find(|c| c.opener == *instr)
                         .map(|c| (c.m_fall, format!("{:?}", c.kind)))
-                        .or_else(|| finfo.constructs.iter().find(|c| c.else_idx == Some(*instr)).and_then(|c| c.m_else_fall.map(|m| (m, "Else".to_string()))));
+                        .or_else(|| finfo.constructs.iter().find(|c| c.else_idx == Some(*instr)).map(|c| (c.m_else_fall.unwrap_or(0), "Else".to_string())));
                     if let Some((m, k)) = anchor {
-                        if let Some(e) = check_alternation(&t.trace, &Ev::Mark(m), &p, trapped, "block_exit") {
+                        let e1 = if m != 0 { check_alternation(&t.trace, &Ev::Mark(m), &p, trapped, "block_exit") } else { None };
+                        // where the body falls through to: an `if` with else -> its `else`; otherwise the `end`
+                        let c = finfo.constructs.iter().find(|c| c.opener == *instr || c.else_idx == Some(*instr));
+                        let fall_pc = c.map(|c| if c.opener == *instr { c.else_idx.unwrap_or(c.end) } else { c.end });
+                        let e = e1.or_else(|| fall_pc.and_then(|pc| virt_rule(&o, &t, crate::interp::V_FALL, fi, pc, &p, "block_exit")));
+                        if let Some(e) = e {
                             push("C19", Mismatch::new("probe_timing", &format!("block_exit:{k}"), e), &mut owned, &mut others);
                         }
                     }
@@ -573,7 +614,10 @@ pub fn judge_exec(id: &str, sc: &Scenario, stats: &mut ExecStats) -> (Judged, Ru
                         if k == "Loop" {
                             continue; // outside the property
                         }
-                        if let Some(e) = check_alternation(&t.trace, &p, &Ev::Mark(m), trapped, "semantic_after") {
+                        let e1 = if m != 0 { check_alternation(&t.trace, &p, &Ev::Mark(m), trapped, "semantic_after") } else { None };
+                        let end_pc = finfo.constructs.iter().find(|c| c.opener == *instr || c.else_idx == Some(*instr)).map(|c| c.end);
+                        let e = e1.or_else(|| end_pc.and_then(|pc| virt_rule(&o, &t, crate::interp::V_AFTER, fi, pc, &p, "semantic_after")));
+                        if let Some(e) = e {
                             push("C20", Mismatch::new("probe_timing", &format!("semantic_after:{k}"), e), &mut owned, &mut others);
                         }
                     } else if let Some(b) = finfo.branches.iter().find(|b| b.idx == *instr) {
@@ -641,6 +685,13 @@ pub fn judge_exec(id: &str, sc: &Scenario, stats: &mut ExecStats) -> (Judged, Ru
                                 _ => "br_table",
                             };
                             let tc = target_classes(body, *instr as usize);
+                            // a br_table with several distinct targets whose ends follow each other: the
+                            // flag that is still set after the first firing fires the copy at the next
+                            // target's end as well (same root cause as refired_after_genuine_firing)
+                            let sym = match &body[*instr as usize] {
+                                Ins::BrTable(t, d) if sym == "fired_repeatedly" && t.iter().any(|x| x != d) => "fired_repeatedly(nested_targets)".to_string(),
+                                _ => sym,
+                            };
                             push("C20", Mismatch::new("probe_timing", &format!("semantic_after:{kind}:{tc}:{sym}"), e), &mut owned, &mut others);
                         }
                     }
